@@ -1,7 +1,7 @@
 """C21 / C22 / C23: candle aggregation and scalar aggregates.  Agg.tla cases replayed into the real
 tickcandler / candlecandler / count / min / max / avg / gap through sqlparser.AggRunner.Run and Accum."""
 PROPS = ["C21", "C22", "C23"]
-READY = False
+READY = True
 CLAIMS = {
  "C21": dict(technique="TLA+ refinement (AddCandle/GetCandle/Output accumulator with Truncate/Ceil/IsWithin vs declarative Candles(rows, w)) checked by TLC; TLC-enumerated row sequences replayed into the real tickcandler / candlecandler",
              text="TLC checks exhaustively (all row sequences up to the bound: windows x in-window times x price levels, duplicate timestamps and every permutation, tick and candle inputs, duration-based and calendar-day windows) that the implementation-shaped candle accumulator (three-branch AddCandle with OpenTime/CloseTime comparisons, high/low updates, sums, Count; GetCandle with Truncate/IsWithin; sorted Output) refines the declarative definition (one candle per non-empty window in time order, open/close = price of an earliest/a latest row, high/low extremes, sums and averages over the window's rows), and that for distinct timestamps every permutation yields the same OHLC. All sequences up to a short length and a seeded sample of the longer ones are replayed into the real aggregates (AggRunner.Run and multi-batch Accum) for every timeframe from 1Sec to 1D with boundary offsets (window start, last nanosecond), price columns of every supported type with negative and extreme float32 values, and the real output is compared with the declarative candles.",
